@@ -513,7 +513,7 @@ def finish(pid, seed, t0, t_export, results, known):
     for k in sorted(knowns):
         print('KNOWN-FINDING: property=%s %s' % (pid, kf[k]['what']))
     for (r, o) in inconcl:
-        print('INCONCLUSIVE property=%s harness=%s obligation=%r verdict=%s' % (pid, r['harness'].split('.H_')[-1], o['label'], o['verdict']))
+        print('INCONCLUSIVE property=%s harness=%s obligation=%r verdict=%s %s' % (pid, r['harness'].split('.H_')[-1], o['label'], o['verdict'], (json.dumps(o.get('native')) + ' ' + json.dumps(o['case']['values'])[:600]) if o.get('case') else ''))
     for (h, lab) in vacuous:
         print('VACUOUS property=%s harness=%s label=%s never reached on a feasible path' % (pid, h, lab))
     for (h, why) in val_fail:
